@@ -599,7 +599,7 @@ func main() {
 		}
 	}
 	prevMsg := []byte("previously verified")
-	for run.NOps < a.N {
+	for run.NOps < a.N && !run.Enough() {
 		for _, si := range rng.Perm(len(shapes)) {
 			n, t := shapes[si].n, shapes[si].t
 			secret := scalar()
